@@ -73,14 +73,6 @@ def boot() -> None:
         d = os.path.join(REPO, rel, "llama_agents", sub)
         if os.path.isdir(d):
             _shell(f"llama_agents.{sub}", [d])
-    for sub in ("_runtime", "_store"):
-        d = os.path.join(REPO, "packages/llama-agents-server/src/llama_agents/server", sub)
-        if os.path.isdir(d):
-            _shell(f"llama_agents.server.{sub}", [d])
-    d = os.path.join(REPO, "packages/llama-agents-server/src/llama_agents/server/_store/sqlite")
-    if os.path.isdir(d):
-        _shell("llama_agents.server._store.sqlite", [d])
-
     logging.disable(logging.CRITICAL)
     import warnings
 
